@@ -291,18 +291,16 @@ class MOLGP:
             debug_model = None
             debug_spline = None
 
-        deriv = None
         for i, mol_id in enumerate(mol_ids):
             print("MOL ID", mol_id)
             data = self.load_data(ddir, mol_id, get_orb_deriv)
-            if deriv is None:
-                if get_orb_deriv is None:
-                    if "ddesc" in data:
-                        deriv = True
-                    else:
-                        deriv = False
-                else:
-                    deriv = get_orb_deriv
+            # With get_orb_deriv=None, the derivatives are used iff they are
+            # available for this system. This must be decided separately for
+            # every system so that the result is independent of their order.
+            if get_orb_deriv is None:
+                deriv = "ddesc" in data
+            else:
+                deriv = get_orb_deriv
             if deriv:
                 assert "ddesc" in data
 
@@ -561,18 +559,14 @@ class MOLGP2(MOLGP):
         # need to have different _compute_mol_covs function to handle baselines differently.
         blksize = 10000
 
-        deriv = None
         for mol_id in mol_ids:
             print("MOL ID", mol_id)
             data = self.load_data(ddir, mol_id, get_orb_deriv)
-            if deriv is None:
-                if get_orb_deriv is None:
-                    if "ddesc" in data:
-                        deriv = True
-                    else:
-                        deriv = False
-                else:
-                    deriv = get_orb_deriv
+            # See MOLGP._compute_mol_covs: decided separately for every system.
+            if get_orb_deriv is None:
+                deriv = "ddesc" in data
+            else:
+                deriv = get_orb_deriv
             if deriv:
                 assert "ddesc" in data
                 assert "drho_data" in data
